@@ -49,7 +49,7 @@ CLAIMED.update({
                 "writers of every position field, the paired-guard constant of the direct-read fast path, every emitted frame advancing the writer position by its size, "
                 "and every stamped block moving the reader's running position past it (all four reader variants). The reference-model "
                 "equality over histories and gzi boundary arithmetic are not decided.",
-        "note": "trusts inner Seek::seek; two genuine defects found by these rules were repaired (fix: commits 4ec97ac, 96ce989); genuine defect F29 (async poll_seek answered a repeated request without seeking) repaired (fix: d58c4c8; rule R7); the gzi exact-hit seed (round 4) stays invisible (value-level)",
+        "note": "trusts inner Seek::seek; two genuine defects found by these rules were repaired (fix: commits 4ec97ac, 96ce989); genuine defect F29 (async poll_seek answered a repeated request without seeking) repaired (fix: d58c4c8; rule R7); the gzi exact-hit seed (round 4) stays invisible (value-level); genuine defect F42 (async seek: unvalidated offset, position lost at end of stream; it had been excused in R2's caller table) repaired (fix: 788e61a)",
         "technique": "static analysis: must-pass-through typestate, guard dominance, who-may-write/who-may-call tables (MIR)",
         "design_ref": "§5 C02",
     },
